@@ -2,7 +2,15 @@
 C14 — model of the push-down hints (`forml/io/dsl/parser.py`, `forml/io/dsl/_struct/series.py`) and a small
 row-level denotation of statements that executes a statement against a storage back-end which is handed those hints.
 
-Python (as repaired by fixes/C14-pushdown-hints.diff)            here
+Two variants of the parser are modelled, selected by `fix : Bool`:
+  `fix = false`  the code that exists (/repo HEAD, incl. fixes/C14-pushdown-hints.diff): segments keyed by table,
+                 `visit_join` registers its condition with `filter` whatever the join kind (findings C14-F1, C14-F2);
+  `fix = true`   the code as repaired by fixes/C14-outer-join-and-scan-segments.diff: segments keyed by the scanned
+                 origin (`Tables.__getitem__(origin)`, `_visit_scan`), `visit_join` releases the optional side(s) of an
+                 outer join (`Tables.release`) and exempts the preserved side(s) from the factors of its condition
+                 (`Tables.filter(expression, *preserved)`).
+
+Python                                                            here
 ---------------------------------------------------------------  ------------------------------------------
 `Feature.Dissect` with `Element` (visitor, no descent in windows) `elems`, `elemsL`
 `Source.instance`                                                 `inst`
@@ -10,8 +18,9 @@ Python (as repaired by fixes/C14-pushdown-hints.diff)            here
 `Predicate.Factors.primitive`                                     `primitive`
 `Predicate.Factors.merge` / `__and__` / `__or__`                  `mergeF` / `andF` / `orF`
 `And/Or/Not/Comparison.factors`, missing `factors` attribute      `toPred` + `factorsP` (error value `Err`)
-`Container.Context.Tables` (`Segment.fields/factors`, `select`,   `Segs`, `Segs.select`, `Segs.filter`, `hintOf`
-   `filter`, `Segment.predicate`)
+`Container.Context.Tables` (`Segment.fields/factors`, `select`,   `Segs`, `keyOf`, `Segs.select`, `Segs.filter`,
+   `filter`, `release`, `scans`, `Segment.predicate`)                `Segs.release`, `origins`, `hintOf`
+`Visitor.visit_join` (what it registers before the sides)         `joinCtx`
 `Visitor.visit_table/reference/join/set/query` (+`with self:`)    `run` (component `hints`, `st`)
 `Visitor.generate_table(table, features, predicate)`              `Hint` (what is offered), `Backend.scan` (what a back-end does with it)
 
@@ -185,36 +194,69 @@ def addNew {α : Type} [DecidableEq α] (l : List α) (a : α) : List α := if a
 
 def addAll {α : Type} [DecidableEq α] (l : List α) (as : List α) : List α := as.foldl addNew l
 
+/-- the segment an element of origin `o` is registered in and a scan of `o` reads: the origin itself in the repaired
+code (`self[element.origin]`, `self.context.tables[origin]`), its table in the code that exists
+(`self[element.origin.instance]`, `self.context.tables[table]`) -/
+def keyOf (fix : Bool) (o : Source) : Source := if fix then o else inst o
+
 /-- the table columns behind the elements of the features (`element.origin.instance` is a table) -/
-def tableCols (fs : List Feature) : List (Source × String) :=
-  (elemsAll fs).filterMap (fun e => if isTable (inst e.1) then some (inst e.1, e.2) else none)
+def tableCols (fix : Bool) (fs : List Feature) : List (Source × String) :=
+  (elemsAll fs).filterMap (fun e => if isTable (inst e.1) then some (keyOf fix e.1, e.2) else none)
 
 /-- `Tables.select(*feature)` -/
-def Segs.select (st : Segs) (fs : List Feature) : Segs :=
-  { st with fields := addAll st.fields (tableCols fs) }
+def Segs.select (fix : Bool) (st : Segs) (fs : List Feature) : Segs :=
+  { st with fields := addAll st.fields (tableCols fix fs) }
 
-/-- `Tables.filter(expression)` -/
-def Segs.filter (lenient : Bool) (st : Segs) (e : Feature) : Segs :=
-  let st := st.select [e]
+/-- `Tables.filter(expression, *preserved)`; `ex` = `scans(*preserved)`, the origins exempt from the factors (always
+empty in the code that exists) -/
+def Segs.filter (fix lenient : Bool) (st : Segs) (e : Feature) (ex : List Source) : Segs :=
+  let st := st.select fix [e]
   match factorsOf lenient e with
-  | .ok m => { st with factors := addAll st.factors m }
+  | .ok m => { st with factors := addAll st.factors (m.filter (fun kv => !ex.contains kv.1)) }
   | .error x => { st with err := match st.err with | some y => some y | none => some x }
 
-/-- `if condition is not None: tables.filter(condition)` -/
-def Segs.filterOpt (lenient : Bool) (st : Segs) : FeatureOpt → Segs
-  | .some c => st.filter lenient c
+/-- `if condition is not None: tables.filter(condition, *preserved)` -/
+def Segs.filterOpt (fix lenient : Bool) (st : Segs) (c : FeatureOpt) (ex : List Source) : Segs :=
+  match c with
+  | .some c => st.filter fix lenient c ex
   | .none => st
 
-/-- what `visit_table` hands to `generate_table`: the fields and the factors (`Segment.predicate` is their
-disjunction, `None` when there is none) registered for the table so far -/
+/-- `Tables.release(*origin)`; `os` = `scans(*origin)`: the factors registered so far for these origins are discarded -/
+def Segs.release (st : Segs) (os : List Source) : Segs :=
+  { st with factors := st.factors.filter (fun kv => !os.contains kv.1) }
+
+/-- `optional` of `visit_join` as `scans(*optional)`: the origins of the side(s) an outer join extends with NULLs.
+The code that exists releases nothing. -/
+def released (fix : Bool) (l r : Source) : JoinKind → List Source
+  | .left => if fix then origins r else []
+  | .right => if fix then origins l else []
+  | .full => if fix then origins r ++ origins l else []
+  | _ => []
+
+/-- `preserved` of `visit_join` as `scans(*preserved)`: the origins of the side(s) an outer join keeps all the rows of.
+The code that exists exempts nothing. -/
+def exempt (fix : Bool) (l r : Source) : JoinKind → List Source
+  | .left => if fix then origins l else []
+  | .right => if fix then origins r else []
+  | .full => if fix then origins l ++ origins r else []
+  | _ => []
+
+/-- what `visit_join` registers before it visits the sides: `tables.release(*optional)`, then
+`tables.filter(condition, *preserved)` (the code that exists: `tables.filter(condition)` only) -/
+def joinCtx (fix lenient : Bool) (st : Segs) (l r : Source) (k : JoinKind) (c : FeatureOpt) : Segs :=
+  (st.release (released fix l r k)).filterOpt fix lenient c (exempt fix l r k)
+
+/-- what `visit_table` / `_visit_scan` hands to `generate_table`: the fields and the factors (`Segment.predicate` is
+their disjunction, `None` when there is none) registered so far in the segment of the scan -/
 structure Hint where
   table : Source
   cols : List String
   pred : List Feature
   deriving Repr, Inhabited
 
-def hintOf (st : Segs) (t : Source) : Hint :=
-  ⟨t, (st.fields.filter (fun kv => kv.1 = t)).map (·.2), (st.factors.filter (fun kv => kv.1 = t)).map (·.2)⟩
+/-- the hint read from segment `key` for a scan of `table` -/
+def hintOf (st : Segs) (key table : Source) : Hint :=
+  ⟨table, (st.fields.filter (fun kv => kv.1 = key)).map (·.2), (st.factors.filter (fun kv => kv.1 = key)).map (·.2)⟩
 
 /-! ### values, three-valued logic, evaluation -/
 
@@ -344,10 +386,10 @@ def joinRows (S : Sem) (k : JoinKind) (c : FeatureOpt) (ol orr : List Source) (L
 
 /-- the context `visit_query` builds before it visits the source: selection (or all the source's features),
 prefilter (`filter`), postfilter, grouping, ordering (`select`) -/
-def queryCtx (lenient : Bool) (err : Option Err) (src : Source) (sel : Features) (pre : FeatureOpt) (grp : Features)
+def queryCtx (fix lenient : Bool) (err : Option Err) (src : Source) (sel : Features) (pre : FeatureOpt) (grp : Features)
     (post : FeatureOpt) (ord : Orderings) : Segs :=
-  (((((({ err := err } : Segs).select (if sel.isEmpty then features src else sel.toList)).filterOpt lenient pre).select
-    (optList post)).select grp.toList).select (ordFeatures ord))
+  (((((({ err := err } : Segs).select fix (if sel.isEmpty then features src else sel.toList)).filterOpt fix lenient pre []).select fix
+    (optList post)).select fix grp.toList).select fix (ordFeatures ord))
 
 structure Res where
   hints : List Hint
@@ -356,25 +398,30 @@ structure Res where
 
 /-- `Visitor.visit_*`: the hints offered (in `generate_table` call order), the rows the statement yields over the
 back-end `B`, and the parser state afterwards -/
-def run (lenient : Bool) (S : Sem) (B : Backend) (db : Db) : Source → Segs → Res
+def run (fix lenient : Bool) (S : Sem) (B : Backend) (db : Db) : Source → Segs → Res
   | .table n fs, st =>
-    let h := hintOf st (.table n fs)
+    let h := hintOf st (.table n fs) (.table n fs)
     ⟨[h], (B.scan S db h).map (fun r => [(Source.table n fs, r)]), st⟩
   | .ref i nm, st =>
-    let a := run lenient S B db i st
-    ⟨a.hints, a.envs.map (rebind (.ref i nm)), a.st⟩
+    if isTable i then
+      -- a scan of the table behind the reference: its own segment in the repaired code, the table's otherwise
+      let h := hintOf st (keyOf fix (.ref i nm)) i
+      ⟨[h], (B.scan S db h).map (fun r => [(Source.ref i nm, r)]), st⟩
+    else
+      let a := run fix lenient S B db i st
+      ⟨a.hints, a.envs.map (rebind (.ref i nm)), a.st⟩
   | .join l r k c, st =>
-    let a := run lenient S B db l (st.filterOpt lenient c)
-    let b := run lenient S B db r a.st
+    let a := run fix lenient S B db l (joinCtx fix lenient st l r k c)
+    let b := run fix lenient S B db r a.st
     ⟨a.hints ++ b.hints, joinRows S k c (origins l) (origins r) a.envs b.envs, b.st⟩
   | .set l r k, st =>
-    let a := run lenient S B db l st
-    let b := run lenient S B db r a.st
+    let a := run fix lenient S B db l st
+    let b := run fix lenient S B db r a.st
     ⟨a.hints ++ b.hints,
      (S.setop k (a.envs.map firstRow) (b.envs.map firstRow)).map (fun row => [(Source.set l r k, row)]), b.st⟩
   | .query src sel pre grp post ord rows, st =>
     -- `with self:` a fresh context; only an error escapes it
-    let a := run lenient S B db src (queryCtx lenient st.err src sel pre grp post ord)
+    let a := run fix lenient S B db src (queryCtx fix lenient st.err src sel pre grp post ord)
     let kept := a.envs.filter (fun e => holdsOpt S e pre)
     ⟨a.hints, (S.finish (.query src sel pre grp post ord rows) kept).map
         (fun row => [(Source.query src sel pre grp post ord rows, row)]), { st with err := a.st.err }⟩
@@ -383,8 +430,8 @@ def run (lenient : Bool) (S : Sem) (B : Backend) (db : Db) : Source → Segs →
 def trivialSem : Sem := ⟨fun _ _ => .null, fun _ => .null, fun _ _ => .null, fun _ _ => [], fun _ _ _ => []⟩
 
 /-- what the parser offers for a statement: the hints in call order, or the error it raises -/
-def hints (lenient : Bool) (s : Source) : Except Err (List Hint) :=
-  let r := run lenient trivialSem Backend.ignore (fun _ => []) s {}
+def hints (fix lenient : Bool) (s : Source) : Except Err (List Hint) :=
+  let r := run fix lenient trivialSem Backend.ignore (fun _ => []) s {}
   match r.st.err with
   | some e => .error e
   | none => .ok r.hints
@@ -404,6 +451,21 @@ def needs : List Feature → Source → List (List String)
   | _, .set l r _ => needs [] l ++ needs [] r
   | _, .query src sel pre grp post ord _ => needs (queryFeatures src sel pre grp post ord) src
 
+/-- all the join conditions of a join tree (one query context), in the order `visit_join` registers them -/
+def condsOf : Source → List Feature
+  | .join l r _ c => optList c ++ condsOf l ++ condsOf r
+  | _ => []
+
+/-- the property's own reading of "uses": per `generate_table` call (same order as `needs`), the columns of the scanned
+origin occurring *anywhere* in its query — output features, prefilter, postfilter, grouping, ordering and every join
+condition of the query's join tree (`F` = all of these for the enclosing query) -/
+def usesIn : List Feature → Source → List (List String)
+  | F, .table n fs => [usedBy F (.table n fs)]
+  | F, .ref i nm => if isTable i then [usedBy F (.ref i nm)] else usesIn F i
+  | F, .join l r _ _ => usesIn F l ++ usesIn F r
+  | _, .set l r _ => usesIn [] l ++ usesIn [] r
+  | _, .query src sel pre grp post ord _ => usesIn (queryFeatures src sel pre grp post ord ++ condsOf src) src
+
 /-- every join of the statement (nested statements included) is an inner or a cross join -/
 def innerOnly : Source → Bool
   | .table _ _ => true
@@ -420,12 +482,6 @@ def joinsScoped : Source → Bool
   | .join l r _ c => scopedIn (origins l ++ origins r) (optList c) && joinsScoped l && joinsScoped r
   | _ => true
 
-/-- no table is scanned through a reference in a context that also scans it directly -/
-def noAliasedScan (os : List Source) : Bool :=
-  os.all (fun o => match o with
-    | .ref i _ => !(isTable i && os.contains i)
-    | _ => true)
-
 /-- the tables a condition yields a factor for -/
 def factorTables (lenient : Bool) : FeatureOpt → List Source
   | .none => []
@@ -433,27 +489,36 @@ def factorTables (lenient : Bool) : FeatureOpt → List Source
     | .ok m => m.map (·.1)
     | .error _ => []
 
-/-- none of the origins `os` gets a factor from a pending condition `P` -/
+/-- none of the origins `os` gets a factor from a condition in `P` -/
 def noFactorFor (lenient : Bool) (P : List Feature) (os : List Source) : Bool :=
   os.all (fun o => P.all (fun p => !(factorTables lenient (.some p)).contains o))
 
-/-- outer joins that are harmless for the offered row filters (`P` = conditions pending above the node): the ON
-condition of an outer join yields no single-table factor, and no table on a NULL-supplying side is offered a factor of
-a condition above the join (prefilter, ON conditions of enclosing inner joins) -/
-def outerSafe (lenient : Bool) : List Feature → Source → Bool
-  | _, .table _ _ => true
-  | _, .ref i _ => outerSafe lenient [] i
-  | P, .join l r k c =>
+/-- **The statements outside the regions of the findings C14-F1 and C14-F2** (`P` = the conditions still pending above
+the node: prefilter, ON conditions of the enclosing joins that still apply to every row; `Q` = all the conditions
+registered so far in the query context).  For the code that exists (`fix = false`):
+* F1a — the ON condition of an outer join yields no factor for a table of a side the join preserves;
+* F1b — no table of a NULL-extended side of an outer join is offered a factor of a condition pending above the join;
+* F2  — a table scanned through a reference has no factor registered in its context by the time of that scan.
+The repaired code (`fix = true`) establishes all three by construction: the predicate is constantly true. -/
+def safe (fix lenient : Bool) : List Feature → List Feature → Source → Bool
+  | _, _, .table _ _ => true
+  | _, Q, .ref i _ => if isTable i then fix || noFactorFor lenient Q [i] else safe fix lenient [] [] i
+  | P, Q, .join l r k c =>
     match k with
-    | .inner | .cross => outerSafe lenient (optList c ++ P) l && outerSafe lenient (optList c ++ P) r
-    | .left => (factorTables lenient c).isEmpty && noFactorFor lenient P (origins r)
-        && outerSafe lenient P l && outerSafe lenient [] r
-    | .right => (factorTables lenient c).isEmpty && noFactorFor lenient P (origins l)
-        && outerSafe lenient [] l && outerSafe lenient P r
-    | .full => (factorTables lenient c).isEmpty && noFactorFor lenient P (origins l) && noFactorFor lenient P (origins r)
-        && outerSafe lenient [] l && outerSafe lenient [] r
-  | _, .set l r _ => outerSafe lenient [] l && outerSafe lenient [] r
-  | _, .query src _ pre _ _ _ _ => outerSafe lenient (optList pre) src
+    | .inner | .cross =>
+      safe fix lenient (optList c ++ P) (optList c ++ Q) l
+        && safe fix lenient (optList c ++ P) (condsOf l ++ (optList c ++ Q)) r
+    | .left =>
+      (fix || (noFactorFor lenient (optList c) (origins l) && noFactorFor lenient P (origins r)))
+        && safe fix lenient P (optList c ++ Q) l && safe fix lenient (optList c) (condsOf l ++ (optList c ++ Q)) r
+    | .right =>
+      (fix || (noFactorFor lenient (optList c) (origins r) && noFactorFor lenient P (origins l)))
+        && safe fix lenient (optList c) (optList c ++ Q) l && safe fix lenient P (condsOf l ++ (optList c ++ Q)) r
+    | .full =>
+      (fix || noFactorFor lenient (optList c ++ P) (origins l ++ origins r))
+        && safe fix lenient [] (optList c ++ Q) l && safe fix lenient [] (condsOf l ++ (optList c ++ Q)) r
+  | _, _, .set l r _ => safe fix lenient [] [] l && safe fix lenient [] [] r
+  | _, _, .query src _ pre _ _ _ _ => safe fix lenient (optList pre) (optList pre) src
 
 /-- a complete statement (`dsl.Statement`): query or set -/
 def isStmt : Source → Bool
@@ -470,27 +535,32 @@ def shaped : Source → Bool
   | .set l r _ => isStmt l && isStmt r && shaped l && shaped r
   | .query src _ _ _ _ _ _ => shaped src
 
-/-- well-formedness of every query context of the statement: a reference wraps a table or a statement, the operands
-of a set are statements (`Set.__new__` stores `.statement`), and per query: distinct origins, conditions in scope,
-no table scanned both directly and through a reference -/
-def wellScoped : Source → Bool
-  | .table _ _ => true
-  | .ref i _ => (isTable i || isStmt i) && wellScoped i
-  | .join l r _ _ => wellScoped l && wellScoped r
-  | .set l r _ => isStmt l && isStmt r && wellScoped l && wellScoped r
-  | .query src _ pre _ _ _ _ =>
-    decide (origins src).Nodup && joinsScoped src && scopedIn (origins src) (optList pre)
-      && noAliasedScan (origins src) && wellScoped src
-
-/-- what the grammar (`Join.__new__`, `Query.__new__`, `Set.__new__`, `Reference.__new__`) and SQL name resolution
-guarantee for every statement: `wellScoped` without the exclusion of aliased scans -/
+/-- what the grammar (`Join.__new__`, `Set.__new__`, `Reference.__new__`) and SQL name resolution guarantee for every
+statement: `shaped`, and per query context: distinct origins, join conditions over the origins of their own sides -/
 def grammarScoped : Source → Bool
   | .table _ _ => true
   | .ref i _ => (isTable i || isStmt i) && grammarScoped i
   | .join l r _ _ => grammarScoped l && grammarScoped r
   | .set l r _ => isStmt l && isStmt r && grammarScoped l && grammarScoped r
+  | .query src _ _ _ _ _ _ => decide (origins src).Nodup && joinsScoped src && grammarScoped src
+
+/-- no table is scanned through a reference in a context that also scans it directly (the region the first version
+of `C14_filter_partial` excluded; `safe` is weaker) -/
+def noAliasedScan (os : List Source) : Bool :=
+  os.all (fun o => match o with
+    | .ref i _ => !(isTable i && os.contains i)
+    | _ => true)
+
+/-- the hypothesis of the first version of `C14_filter_partial` (with `innerOnly`): `grammarScoped`, prefilter in
+scope, and no aliased scan at all — kept to show that `safe false` only admits more (`C14_safe_of_v1`) -/
+def wellScopedV1 : Source → Bool
+  | .table _ _ => true
+  | .ref i _ => (isTable i || isStmt i) && wellScopedV1 i
+  | .join l r _ _ => wellScopedV1 l && wellScopedV1 r
+  | .set l r _ => isStmt l && isStmt r && wellScopedV1 l && wellScopedV1 r
   | .query src _ pre _ _ _ _ =>
-    decide (origins src).Nodup && joinsScoped src && scopedIn (origins src) (optList pre) && grammarScoped src
+    decide (origins src).Nodup && joinsScoped src && scopedIn (origins src) (optList pre)
+      && noAliasedScan (origins src) && wellScopedV1 src
 
 /-! ### `forml.provider.feed.lazy._Columns` — the columns a lazy feed loads per table
 
@@ -587,7 +657,7 @@ def simpleScalar : Sem := ⟨simpleOp, simpleLit, fun v _ => v, fun _ _ => [], s
 def simpleSem : Sem := ⟨simpleOp, simpleLit, fun v _ => v, simpleFinish simpleScalar, simpleSetop⟩
 
 /-- the result of a statement over a back-end: the rows of its single binding -/
-def result (lenient : Bool) (S : Sem) (B : Backend) (db : Db) (s : Source) : List Row :=
-  (run lenient S B db s {}).envs.map firstRow
+def result (fix lenient : Bool) (S : Sem) (B : Backend) (db : Db) (s : Source) : List Row :=
+  (run fix lenient S B db s {}).envs.map firstRow
 
 end ForML.PushDown
